@@ -34,11 +34,15 @@ Theorem C08_normaliser_fills_inner_empty_lines : forall l, no_cr_cr (fix_blank_l
 Proof. exact fix_blank_lines_no_empty_inner_line. Qed.
 Print Assumptions C08_normaliser_fills_inner_empty_lines.
 
-(* ... but it neither handles an empty first line nor removes a blank_line object from a line that is no longer
-   empty: on such lists the normalisers are the identity and the list is not in reader shape (the full statement
-   "normalise restores the shape" is false of the faithful model; these are the witnesses of the known findings) *)
+(* ... and every blank_line object that leaves it is alone on its line (a stale one is dropped: repaired in /repo by c3b3977) *)
+Theorem C08_normaliser_blank_lines_alone : forall l, alone_from true (fix_blank_lines l) = true.
+Proof. exact fix_blank_lines_alone. Qed.
+Print Assumptions C08_normaliser_blank_lines_alone.
+
+(* ... but an empty first line still gets no blank_line object: on the witness the normalisers are the identity and
+   the list is not in reader shape (the full statement "normalise restores the shape" is false of the faithful
+   model; this is the witness of the known finding blank_line / carriage_return at token 0) *)
 Theorem C08_normaliser_restores_shape_refuted :
-  (exists l, fix_trailing_whitespace (fix_blank_lines l) = l /\ shape l = false /\ hd_error l = Some CR) /\
-  (exists l, fix_trailing_whitespace (fix_blank_lines l) = l /\ shape l = false /\ no_cr_cr l = true).
-Proof. split; [exact normaliser_first_line_refuted|exact normaliser_stale_blank_refuted]. Qed.
+  exists l, fix_trailing_whitespace (fix_blank_lines l) = l /\ shape l = false /\ hd_error l = Some CR.
+Proof. exact normaliser_first_line_refuted. Qed.
 Print Assumptions C08_normaliser_restores_shape_refuted.
